@@ -168,7 +168,8 @@ class LinearEstimate(E2Contract):
         r1b = est.calc_estimate(qt, [((inp["n2"] if j % 2 else 3 * inp["n1"]), fj) for j, fj in enumerate(inp["f"])])
         return dict(A=A, b=b, v1=r1.estimated_var, v2=r2.estimated_var, seq=list(rs.estimated_var_sequence), vx=rx.estimated_var,
                     v1b=r1b.estimated_var, obj1=stacked(W, r1.estimated_qoperation),
-                    obj_seq=[stacked(W, o) for o in rs.estimated_qoperation_sequence], full_rank=qt.is_fullrank_matA())
+                    obj_seq=[stacked(W, o) for o in rs.estimated_qoperation_sequence], full_rank=qt.is_fullrank_matA(),
+                    seq_first_var=rs.estimated_var, seq_first_obj=stacked(W, rs.estimated_qoperation))
 
     def post(self, W, cfg, inp, out):
         np = W.np
@@ -184,7 +185,22 @@ class LinearEstimate(E2Contract):
                 eq("independent-of-sample-counts", out["v1b"], out["v1"], "the estimate does not depend on the sample counts attached to the data (counts differing between schedules)"),
                 eq("estimated_qoperation", out["obj1"], stacked(W, tmpl.generate_from_var(out["v1"])), "estimated_qoperation == generate_from_var(estimated_var)"),
                 eq("estimated_qoperation_sequence", out["obj_seq"], [stacked(W, tmpl.generate_from_var(v)) for v in (out["v1"], out["v2"])], "likewise for sequences"),
+                eq("sequence-result/singular-accessors==first-dataset", [out["seq_first_var"], out["seq_first_obj"]],
+                   [out["v1"], stacked(W, tmpl.generate_from_var(out["v1"]))],
+                   "estimated_var / estimated_qoperation of a multi-dataset result are the estimate of the FIRST dataset (the one estimating it alone gives)"),
                 eq("full-column-rank", out["full_rank"], True, "informationally complete testers => the model has full column rank (exact rank)")]
 
     def canary(self, W, cfg, inp, out):
         return [eq("canary", out["vx"], inp["x"] * 2, "(false) exact data recovers 2x")]
+
+
+from .C08_all import ForwardModel as _ForwardModel
+
+
+class ModelInvertedUnderC09(_ForwardModel):
+    """the affine model the linear estimator inverts (C08's contract), on the tomography types whose model builder has branches that the
+    two-outcome configurations above do not reach: measurement processes and POVMs with three outcomes, constraint built in"""
+    prop = "C09"
+
+    def configs(self, tier):
+        return [("1q", "qmpt", True, "all", 3), ("1q", "povmt", True, "all", 3)]
